@@ -66,7 +66,7 @@ def analyse_sender(f, rep, co, label, push_before_write_ok=False, param_pred=Non
         # the write's outcome
         wi, wev = ww[-1]
         this_pop = [pe for pi, pe in pops if pi < wi][-1] if [1 for pi, pe in pops if pi < wi] else None
-        pushed_this = [(pi, pe) for pi, pe in pushes if this_pop is not None and any(y == this_pop.result for y in walk_expr(pe.args[1]))]
+        pushed_this = [(pi, pe) for pi, pe in pushes if this_pop is not None and is_some_payload_of(pe.args[1], this_pop.result)]
         later_pops = [pe for pi, pe in pops if pi > wi]
         forgets = [ev for i, ev in enumerate(p.events) if i > wi and ev.kind == "call" and short(ev.name) in ("peer_disconnected", "remove_entry", "remove_sync", "remove_async", "remove")
                    and ("scc" in ev.name or "peer_disconnected" in ev.name or "OccupiedEntry" in ev.name)]
